@@ -153,7 +153,7 @@ class Harness:
             loop.call_soon(lambda: loop.create_task(self._wrap(kind, RE._stop_coro())))
         elif kind == "halt":
             loop.call_soon(lambda: loop.create_task(self._wrap(kind, RE._halt_coro())))
-        elif kind in ("suspend", "suspend-pp", "suspend-call"):
+        elif kind.startswith("suspend"):
             delta = params.get("release_after", 0.3)
             ev = asyncio.Event()
             loop.call_later(delta, lambda: (self.log.append(("release", kind, delta, ev)), ev.set()))
